@@ -21,8 +21,8 @@ type relation struct {
 // executing Query (holding its CTE states) and one per SELECT level (holding the current FROM row).
 type env struct {
 	parent *env
-	vals   row        // SELECT level: the concatenated columns of all FROM items
-	aggs   []Value    // SELECT level, grouped: the aggregate results of the current group
+	vals   row         // SELECT level: the concatenated columns of all FROM items
+	aggs   []Value     // SELECT level, grouped: the aggregate results of the current group
 	ctes   []*cteState // Query level
 }
 
@@ -88,14 +88,14 @@ type orderKey struct {
 }
 
 type queryPlan struct {
-	cols    []string
-	ctes    []*ctePlan
-	body    setPlan
-	sel     *selectPlan // body when it is a plain SELECT (ORDER BY keys are evaluated inside it)
-	order   []orderKey
-	offset  expr
-	limit   expr
-	top     bool
+	cols   []string
+	ctes   []*ctePlan
+	body   setPlan
+	sel    *selectPlan // body when it is a plain SELECT (ORDER BY keys are evaluated inside it)
+	order  []orderKey
+	offset expr
+	limit  expr
+	top    bool
 }
 
 type ctePlan struct {
